@@ -252,6 +252,23 @@ CLAIMED = {
         "graph reader.",
         "DESIGN.md section 5, C16",
     ),
+    "C19": (
+        "Coq/MathComp proofs of the logic around the random draws (orthogonalisation from the solver's post-condition, "
+        "axis vectors, create_vector decision table; unitary => isometry is C12) plus in-Coq relation checks on the exact "
+        "value of every yielded vector",
+        "Theorems for every commutative ring and all sizes: a new OrthonormalVectors vector built from any exact solution "
+        "of the coded linear system is orthogonal to every earlier vector and normalisation keeps that; AxisAlignedVectors "
+        "are the d basis vectors in order; unknown properties are rejected and VTB/TVTB unitary+positive is the identity "
+        "with a warning. PARTIAL: the generators' outputs are floating-point functions of NumPy's RandomState / FFT: unit "
+        "norm, 1/sqrt(d) scaling of the draws, pairwise orthonormality and exhaustion after d, unitarity, HRR positivity, "
+        "and for EquallySpacedPositiveUnitaryHrrVectors the fixed step (v_{j+1} = v_j*step incl. the wrap-around), offset 0 = "
+        "identity, offset+1 = one step, offsets add under binding, are relation-checked in Coq by integer arithmetic on the "
+        "dyadic outputs for every yielded vector (d up to 24 / thorough 64, n to 6 / 16, five offsets); the Fourier-domain "
+        "proof over the reals is not done. Same-seed reproducibility and different-seed difference are tested.",
+        "Trusted: Coq kernel + vm_compute; NumPy RandomState / FFT / solve observed through results; SciPy absent "
+        "(positive VTB/TVTB vectors raise ImportError); tolerance 1e-8 / 1e-7 on relations.",
+        "DESIGN.md section 5, C19",
+    ),
 }
 
 NOT_YET = "not yet built in this revision of /verif (design in DESIGN.md section 5); no check is claimed"
